@@ -24,6 +24,9 @@ if VERIF not in sys.path:
 
 os.environ.setdefault("PYSAML2_VERIF", "1")
 logging.disable(logging.CRITICAL)
+import warnings  # noqa: E402
+
+warnings.filterwarnings("ignore")
 
 
 def check_repo_import():
